@@ -10,6 +10,13 @@ def reg(spec):
     return spec
 
 
+def _lazy1(mod, fn):
+    def call(tier):
+        import importlib
+        return getattr(importlib.import_module(mod), fn)(tier)
+    return call
+
+
 def _lazy(mod, fn):
     def call(tier, seed):
         import importlib
@@ -126,7 +133,19 @@ reg(PropertySpec(
     "C17", "Prior is evaluated before likelihood on the same points; evaluations are counted",
     functions=LOGPROBS + MUTATES + ["samplers.mcmc:MCMCSampler.draw_initial_samples"],
     native=_lazy("checks.native_smc", "native_C17"),
+    extra_static=_lazy1("checks.static_facts", "c17_callgraph"),
     technique="contract-based deductive verification: the user's likelihood is modelled by a callable that carries the call-site obligation (samples.log_prior present and equal to the prior of exactly those rows), so every path of every caller reaching it is checked; ghost evaluation counter (z3); call-graph check that the user's likelihood is only reachable through the counting wrapper; bounded native stand-in with instrumented callables",
     assumptions=["A-USER"],
     miss=["calls made under JAX tracing (BlackJAX) are counted per trace"],
+))
+
+reg(PropertySpec(
+    "C12", "An interrupted run always leaves a loadable, current checkpoint file",
+    functions=[f"{SMC}:SMCSampler.sample", "utils:dump_pickle_to_hdf", "samplers.base:Sampler.default_file_checkpoint_callback"],
+    native=_lazy("checks.native_ckpt", "native_C12"),
+    extra_static=_lazy1("checks.static_facts", "c12_names"),
+    technique="contract-based deductive verification: cadence and payload-currency obligations on the ghost event trace of the real SMCSampler.sample loop; blob contract of dump_pickle_to_hdf over an h5py dataset model (length and bytes for absent/equal/shorter/longer previous contents); file callback contract (append mode, checkpoint/state, closed, in-memory copy); writer/reader name agreement from the ast; bounded native fault injection",
+    assumptions=["assumed h5py model: create_dataset(shape, maxshape=(None,)), resize, [:] = b requires equal length; an HDF5 write that returns has completed",
+                 "pickle.dump writes a function of the state's value at call time", "process kill in the middle of a write is out of scope: interruptions are exceptions raised in user callables"],
+    miss=["h5py behaviour beyond the model", "ordering of config/flow writes in Aspire.sample_posterior is covered by the bounded stand-in until the Aspire contracts land"],
 ))
